@@ -10,7 +10,7 @@ Require Import Zrs.lib.RsPrelude Zrs.gen.RefTables Zrs.gen.Generated Zrs.model.B
 Require Import Zrs.proofs.C12_Fse.
 Require Import Zrs.model.BitIO Zrs.model.BitStream Zrs.model.SeqEnc Zrs.model.BlockDec Zrs.proofs.C12_Stream Zrs.proofs.C12_SeqStream Zrs.proofs.C12_Predef.
 Require Import Zrs.model.FseEnc Zrs.model.SeqSection Zrs.proofs.C12_Desc Zrs.proofs.C12_Section.
-Require Import Zrs.model.FseNorm Zrs.proofs.C12_Norm Zrs.proofs.C12_NormTotal Zrs.proofs.C12_TableWf Zrs.proofs.C12_Covers.
+Require Import Zrs.model.FseNorm Zrs.proofs.C12_Norm Zrs.proofs.C12_NormTotal Zrs.proofs.C12_TableWf Zrs.proofs.C12_Covers Zrs.proofs.C12_General.
 Open Scope Z_scope.
 
 Theorem C12_ll_predefined_eq_ref :
@@ -159,6 +159,22 @@ Example C12_predefined_distributions_are_normalised :
 Proof. vm_compute. repeat split. Qed.
 
 Print Assumptions C12_table_description_roundtrip.
+(** THE GENERAL TABLE THEOREM: for every accuracy log 5..9 and EVERY normalised distribution -- probabilities >= -1, a
+    "less than one" probability (-1) counting 1, total 2^accuracy_log -- over an alphabet of at most 256 symbols, the
+    decoder's table construction succeeds (the "less than one" symbols at the top, the others spread along the orbit of
+    the spreading step over the positions below them, baselines and bit counts in state order); the table has
+    2^accuracy_log entries; every entry's state range lies inside the table; and every symbol with a non-zero probability
+    has states whose ranges cover the whole state space *)
+Theorem C12_general_table_theorem : forall al probs ms,
+  5 <= al <= 9 -> Forall (fun p => -1 <= p) probs -> weight probs = 2 ^ al ->
+  (length probs <= 256)%nat -> Z.of_nat (length probs) <= ms + 1 ->
+  exists D, fse_build_from_probabilities (fse_new ms) al probs = ROk D /\
+    (forall e, In e (t_decode D) -> 0 <= e_bits e <= al /\ 0 <= e_base e /\ e_base e + 2 ^ e_bits e <= 2 ^ al) /\
+    Z.of_nat (length (t_decode D)) = 2 ^ al /\
+    (forall i, (i < length probs)%nat -> nth i probs 0 <> 0 -> covers D (Z.of_nat i)).
+Proof. exact general_table. Qed.
+
+Print Assumptions C12_general_table_theorem.
 Print Assumptions C12_normaliser_output_is_normalised.
 Print Assumptions C12_normaliser_never_panics.
 Print Assumptions C12_every_built_table_is_well_formed.
